@@ -1005,12 +1005,15 @@ class Table:
             to_pyarrow_compute_expression,
         )
 
+        # Parse and build the filter BEFORE looking at the data: a malformed
+        # filter must raise on every table - also on an empty one, and also when
+        # pruning leaves no file to read - exactly as scan_batches does.
+        expressions = parse_filter_dict(filter_dict) if filter_dict else []
+        compute_expr = to_pyarrow_compute_expression(expressions) if expressions else None
+
         data_files = self._get_all_data_files()
         if not data_files:
             return None
-
-        expressions = parse_filter_dict(filter_dict) if filter_dict else []
-        compute_expr = to_pyarrow_compute_expression(expressions) if expressions else None
 
         # File-level pruning via column bounds
         if expressions:
@@ -1133,9 +1136,12 @@ class Table:
             to_pyarrow_compute_expression,
         )
 
-        data_files = self._get_all_data_files()
-
+        # Parse and build the filter BEFORE looking at the data (see _scan_table):
+        # a filter that cannot be built must raise even when no file is read.
         expressions = parse_filter_dict(filter) if filter else []
+        compute_expr = to_pyarrow_compute_expression(expressions) if expressions else None
+
+        data_files = self._get_all_data_files()
         if expressions and data_files:
             schema = self._get_current_schema()
             if schema:
@@ -1144,7 +1150,6 @@ class Table:
         if not data_files:
             return
 
-        compute_expr = to_pyarrow_compute_expression(expressions) if expressions else None
         verify = self._resolve_verify_checksums(verify_checksums)
 
         yield from self._iter_file_batches(
